@@ -69,6 +69,13 @@ def mk_quat_ops():
     ops["from_DCM.inplace"] = (Rrow, lambda r: np.asarray(Quaternion(dcm=r.copy())), from_dcm_inplace, "exact")
     for flag in ("is_pure", "is_real", "is_versor", "is_identity"):
         ops[flag] = (qrow, lambda r, flag=flag: np.array(float(getattr(Quaternion(r), flag)())), lambda rs, flag=flag: np.asarray(getattr(QuaternionArray(stack(rs)), flag)(), dtype=float), "exact")
+    sl = lambda r: np.roll(np.asarray(r, dtype=float), -1, axis=-1)       # the same quaternion(s), scalar-last
+    ops["conjugate[S]"] = (qrow, lambda r: Quaternion(sl(r), order="S").conjugate, lambda rs: QuaternionArray(sl(stack(rs)), order="S").conjugate(), "exact")
+    ops["to_DCM[S]"] = (qrow, lambda r: Quaternion(sl(r), order="S").to_DCM(), lambda rs: QuaternionArray(sl(stack(rs)), order="S").to_DCM(), "exact")
+    ops["to_angles[S]"] = (qrow, lambda r: Quaternion(sl(r), order="S").to_angles(), lambda rs: QuaternionArray(sl(stack(rs)), order="S").to_angles(), "exact")
+    for flag in ("is_identity", "is_pure"):
+        ops[flag + "[S]"] = (qrow, lambda r, flag=flag: np.array(float(getattr(Quaternion(sl(r), order="S"), flag)())),
+                             lambda rs, flag=flag: np.asarray(getattr(QuaternionArray(sl(stack(rs)), order="S"), flag)(), dtype=float), "exact")
     ops["rmse_matrices"] = (lambda c: (core.g_rot((2, -1, 3, 1)), core.g_rot((2, -1, 3, 1)) @ Rrow(c)), lambda r: MT.rmse_matrices(r[0], r[1]),
                             lambda rs: MT.rmse_matrices(stack([r[0] for r in rs]), stack([r[1] for r in rs])), "exact")
     for m, kw in (("shepperd", {}), ("hughes", {}), ("chiaverini", {}), ("sarabandi", {}), ("itzhack1", {"version": 1}), ("itzhack2", {"version": 2}), ("itzhack3", {"version": 3})):
@@ -121,6 +128,20 @@ def mk_quat_ops():
     ops["FQA.acc-only"] = (amrow, lambda r: F.FQA().estimate(r[0]), lambda rs: F.FQA(A(rs)).Q, "exact")
     ops["AQUA.acc-mag"] = (amrow, lambda r: F.AQUA().estimate(r[0], r[1]), lambda rs: F.AQUA(acc=A(rs), mag=M(rs)).Q, "exact")
     ops["AQUA.acc-only"] = (amrow, lambda r: F.AQUA().estimate(r[0]), lambda rs: F.AQUA(acc=A(rs)).Q, "exact")
+    W = np.array([2.0, 1.0])
+    for m in ("symbolic", "eig", "newton"):
+        ops["FLAE.%s[weights]" % m] = (amrow, lambda r, m=m: F.FLAE(magnetic_dip=-63.4, weights=W.copy()).estimate(r[0], r[1], method=m),
+                                        lambda rs, m=m: F.FLAE(A(rs), M(rs), method=m, magnetic_dip=-63.4, weights=W.copy()).Q, "sign" if m == "eig" else "exact")
+    ops["QUEST[weights]"] = (amrow, lambda r: F.QUEST(magnetic_dip=63.4, weights=W.copy()).estimate(r[0], r[1]), lambda rs: F.QUEST(A(rs), M(rs), magnetic_dip=63.4, weights=W.copy()).Q, "exact")
+    ops["Davenport[weights]"] = (amrow, lambda r: F.Davenport(magnetic_dip=63.4, weights=W.copy()).estimate(r[0], r[1]), lambda rs: F.Davenport(A(rs), M(rs), magnetic_dip=63.4, weights=W.copy()).Q, "sign")
+
+    def s_w(r):
+        return F.OLEQ(magnetic_ref=60.0, frame="NED", weights=W.copy()).estimate(r[0], r[1])
+
+    def b_w(rs):
+        np.random.seed(7)
+        return F.OLEQ(A(rs), M(rs), magnetic_ref=60.0, frame="NED", weights=W.copy()).Q
+    ops["OLEQ.NED[weights]"] = (amrow, s_w, b_w, "oleq")
     ops["Complementary.am_estimation"] = (amrow, lambda r: F.Complementary().am_estimation(r[0], r[1]), lambda rs: F.Complementary().am_estimation(A(rs), M(rs)), "exact")
     ops["Complementary.am_estimation.acc-only"] = (amrow, lambda r: F.Complementary().am_estimation(r[0]), lambda rs: F.Complementary().am_estimation(A(rs)), "exact")
     return ops
@@ -147,7 +168,7 @@ ONE_SAMPLE = {
 
 def reform(row, form, op):
     """the same row in another form: integer dtype (raw counts) or scaled (non-normalised)"""
-    if form == "float" or op in ("from_rpy", "from_angles", "rpy2q", "euclidean", "rmse", "is_pure", "is_real", "is_versor", "is_identity", "rmse_matrices"):
+    if form == "float" or op in ("from_rpy", "from_angles", "rpy2q", "euclidean", "rmse", "is_pure", "is_real", "is_versor", "is_identity", "rmse_matrices", "is_identity[S]", "is_pure[S]"):
         return row          # angle triples have a documented range: not rescaled
     def one(x, k):
         x = np.asarray(x, dtype=float)
@@ -231,7 +252,7 @@ def replay_cases(recs):
 
 def run(chk):
     quick = chk.tier == "quick"
-    chk.rule = ("(twin pair, arrangement) cases enumerated by TLC: 58 twin pairs x arrangements of 6 row classes over N in {1,2,5} "
+    chk.rule = ("(twin pair, arrangement) cases enumerated by TLC: 69 twin pairs x arrangements of 6 row classes over N in {1,2,5} "
                 "(special rows -- half-turn, near-half-turn, near-identity, identity -- first / middle / last); distinct = distinct "
                 "(pair, arrangement); all arrangements with a non-identity row are non-trivial")
     chk.assume("row i of the array path equals the scalar path on row i within 1e-12 (up to sign only for eigen-solver outputs), NaN "
